@@ -116,3 +116,25 @@ def run(cx):
         FR.check_seq(cx, 'F-CT-ORDER', 'encrypt/' + vn, fn, seq, want.get(vn, []),
                      'ciphertext for %s is C1=[k]G encoded, C2=M xor KDF(x2||y2,|M|), C3=SM3(x2||M||y2) with (x2,y2)=[k]P, same k' % vn, b)
     cx.floor('F-CT-ORDER', 'encrypt/variants', len(seen), 2, 'ciphertext layouts (one per Sm2Model variant)')
+
+
+_run0 = run
+
+
+def zero_check(cx, fn, P, cn, inst, want_kdf):
+    """the all-zero test that precedes the xor is applied to the KDF output t (not to the message / plaintext)"""
+    its = []
+    for b in FR.calls_of(fn, 'next'):
+        a = FR.arg_canon(fn, P, cn, b, 0)
+        if a.startswith('into_iter(') and 'Range::Range' not in a.split('kdf(')[0]:
+            its.append(a)
+    ok = any(a == 'into_iter(%s)' % want_kdf for a in its)
+    cx.add('F-ZERO-CHECK', inst, ok, 'the zero test iterates over the KDF output: %s' % [FR.short(a, 120) for a in its], fn.loc())
+
+
+def run(cx):
+    _run0(cx)
+    fn = cx.fn('<impl key::Sm2PublicKey>::encrypt')
+    if fn is not None:
+        P = Prov(fn, cx.F); cn = Canon(fn, P)
+        zero_check(cx, fn, P, cn, 'encrypt', 'kdf([X(%s), Y(%s)], len($msg))' % (S, S))
